@@ -4,6 +4,8 @@
 package simos
 
 import (
+	"io"
+	"errors"
 	"io/fs"
 	orig "os"
 	"strings"
@@ -169,7 +171,7 @@ func ReadDir(name string) ([]DirEntry, error) {
 	}
 	out := make([]DirEntry, len(r.Strs))
 	for i, n := range r.Strs {
-		out[i] = fileInfo{name: n, dir: r.Data[i] == 1}
+		out[i] = fileInfo{name: n, dir: r.Data[i] == 1, link: r.Data[i] == 2}
 	}
 	return out, nil
 }
@@ -253,4 +255,111 @@ func Remove(name string) error {
 		return orig.Remove(name)
 	}
 	return nil
+}
+
+// DirFS returns a file system for the tree rooted at dir on the virtual disk (io/fs interfaces:
+// Open, ReadDir, Stat, ReadFile). Libraries that do their directory I/O through io/fs see the
+// simulated world when their os import is redirected.
+func DirFS(dir string) fs.FS {
+	if !kern.Active() {
+		return orig.DirFS(dir)
+	}
+	return vdirFS(VAbs(dir))
+}
+
+type vdirFS string
+
+func (d vdirFS) abs(name string) (string, error) {
+	if !fs.ValidPath(name) {
+		return "", &fs.PathError{Op: "open", Path: name, Err: fs.ErrInvalid}
+	}
+	if name == "." {
+		return string(d), nil
+	}
+	return string(d) + "/" + name, nil
+}
+
+func (d vdirFS) Stat(name string) (fs.FileInfo, error) {
+	p, err := d.abs(name)
+	if err != nil {
+		return nil, err
+	}
+	fi, err := Stat(p)
+	if err != nil {
+		return nil, &fs.PathError{Op: "stat", Path: name, Err: errors.Unwrap(err)}
+	}
+	return fi, nil
+}
+
+func (d vdirFS) ReadDir(name string) ([]fs.DirEntry, error) {
+	p, err := d.abs(name)
+	if err != nil {
+		return nil, err
+	}
+	es, err := ReadDir(p)
+	if err != nil {
+		return nil, &fs.PathError{Op: "readdir", Path: name, Err: errors.Unwrap(err)}
+	}
+	return es, nil
+}
+
+func (d vdirFS) ReadFile(name string) ([]byte, error) {
+	p, err := d.abs(name)
+	if err != nil {
+		return nil, err
+	}
+	return ReadFile(p)
+}
+
+func (d vdirFS) Open(name string) (fs.File, error) {
+	p, err := d.abs(name)
+	if err != nil {
+		return nil, err
+	}
+	fi, err := Stat(p)
+	if err != nil {
+		return nil, &fs.PathError{Op: "open", Path: name, Err: errors.Unwrap(err)}
+	}
+	if fi.IsDir() {
+		return &vdir{fs: d, name: name, info: fi}, nil
+	}
+	return Open(p)
+}
+
+// vdir is an open directory of a vdirFS.
+type vdir struct {
+	fs   vdirFS
+	name string
+	info fs.FileInfo
+	ents []fs.DirEntry
+	read bool
+}
+
+func (v *vdir) Stat() (fs.FileInfo, error) { return v.info, nil }
+func (v *vdir) Read([]byte) (int, error) {
+	return 0, &fs.PathError{Op: "read", Path: v.name, Err: syscall.EISDIR}
+}
+func (v *vdir) Close() error { return nil }
+func (v *vdir) ReadDir(n int) ([]fs.DirEntry, error) {
+	if !v.read {
+		es, err := v.fs.ReadDir(v.name)
+		if err != nil {
+			return nil, err
+		}
+		v.ents, v.read = es, true
+	}
+	if n <= 0 {
+		es := v.ents
+		v.ents = nil
+		return es, nil
+	}
+	if len(v.ents) == 0 {
+		return nil, io.EOF
+	}
+	if n > len(v.ents) {
+		n = len(v.ents)
+	}
+	es := v.ents[:n]
+	v.ents = v.ents[n:]
+	return es, nil
 }
